@@ -279,6 +279,21 @@ fn gen_triangle(s: &Sys, rng: &mut Rng) -> Triangle<f64> {
                 s.c_exact(a.0 + t[2] * d.0, a.1 + t[2] * d.1),
             )
         }
+        2 if rng.chance(1, 2) => {
+            // exactly collinear corners of very different magnitudes on y = m·x + c (every ordinate exact): any rounded
+            // cross product of coordinate differences is non-zero here, the exact one is zero — the triangle is a segment
+            let m = *rng.pick(&[7.0, 3.0, -5.0, 2.0, 0.5]);
+            let c0 = *rng.pick(&[2.0, -3.0, 1.0, 0.0]);
+            let xs = [
+                rng.range(1, 30) as f64,
+                (2 * rng.range(0, 4) + 1) as f64 * 2f64.powi(-(rng.range(40, 50) as i32)),
+                rng.range(1, 15) as f64 / 8.0,
+            ];
+            let at = |x: f64| Coord { x, y: m * x + c0 };
+            let mut v = vec![at(xs[0]), at(xs[1]), at(xs[2])];
+            rng.shuffle(&mut v);
+            Triangle(v[0], v[1], v[2])
+        }
         _ => Triangle(s.rnd(rng), s.rnd(rng), s.rnd(rng)),
     }
 }
